@@ -141,3 +141,28 @@ ITEMS = [
     ('rsExtFirst', RS, r'bool RecordIOSplitter::ExtractNextRecord\(', r'CHECK\((cflag == 1U)\)', [P('cflag')], 'Bool'),
     ('rsExtMore', RS, r'bool RecordIOSplitter::ExtractNextRecord\(', r'while \((cflag != 3U)\) \{', [P('cflag')], 'Bool'),
 ]
+
+# ---- Init / InitInputFileInfo / ConvertToURIs / StripEnd (file-list construction) --------------------
+CU = r'std::vector<URI> InputSplitBase::ConvertToURIs\('
+II = r'void InputSplitBase::InitInputFileInfo\('
+ITEMS += [
+    ('cuDelim', ISB, CU, r"const char dlm = ('[^']+');", [], 'Nat'),
+    ('cuSlash', ISB, CU, r"path\.name\.rfind\(('[^']+')\)", [], 'Nat'),
+    ('cuAsIs', ISB, CU, r'if \((pos == std::string::npos \|\| pos \+ 1 == path\.name\.length\(\))\) \{',
+     [P('pos', 'pos', 64), P('std::string::npos', 'npos', 64), P('path.name.length()', 'len', 64)], 'Bool'),
+    ('cuStripCh', ISB, CU, r"StripEnd\(dfiles\[i\]\.path\.name, ('[^']+')\)", [], 'Nat'),
+    deref('cuRxSkip', ISB, CU, r'if \((dfiles\[i\]\.type != kFile \|\| dfiles\[i\]\.size == 0)\) \{',
+          [P('notFile', 'notFile', 32, True), P('size', 'size', 64)], 'Bool',
+          [(r'dfiles\[i\]\.type != kFile', 'notFile'), (r'dfiles\[i\]\.size', 'size')]),
+    deref('seStrip', ISB, r'std::string InputSplitBase::StripEnd\(', r'while \((str\.length\(\) != 0 && str\[str\.length\(\) - 1\] == ch)\) \{',
+          [P('len', 'len', 64), P('last', 'last', 32), P('ch', 'ch', 32)], 'Bool',
+          [(r'str\[str\.length\(\) - 1\]', 'last'), (r'str\.length\(\)', 'len')]),
+    deref('iiKeepListed', ISB, II, r'if \((dfiles\[i\]\.size != 0 && dfiles\[i\]\.type == kFile)\) \{',
+          [P('size', 'size', 64), P('isFile', 'isFile', 32, True)], 'Bool',
+          [(r'dfiles\[i\]\.type == kFile', 'isFile'), (r'dfiles\[i\]\.size', 'size')]),
+    ('iiKeepFile', ISB, II, r'if \((info\.size != 0)\) \{', [P('info.size', 'size', 64)], 'Bool'),
+    ('iiNoneCount', ISB, II, r'CHECK_NE\(files_\.size\(\), (0U)\)', [], 'Nat'),
+    deref('initOffset', ISB, r'void InputSplitBase::Init\(', r'file_offset_\[i \+ 1\] = (file_offset_\[i\] \+ files_\[i\]\.size);',
+          [P('prev', 'prev', 64), P('size', 'size', 64)], 'Nat',
+          [(r'file_offset_\[i\]', 'prev'), (r'files_\[i\]\.size', 'size')]),
+]
